@@ -222,6 +222,10 @@ class Container:
         self.suspend_ticks = write_to_disk_ticks
         self._suspend_ticks_left = write_to_disk_ticks
 
+        # a suspending container is no longer running: it stops counting
+        # towards the pool's consumed memory
+        self.set_current_memory_usage(0.0)
+
         # Transition remaining operators (ASSIGNED) to SUSPENDING
         # Ops before _current_op_idx are already COMPLETED
         for op in self.operators[self._current_op_idx:]:
